@@ -324,7 +324,7 @@ func derivedFromMsgString(rs recvSite, v ssa.Value) bool {
 }
 
 func checkC11(c *Ctx) {
-	c.Explanation = "Decides the happens-before structure that the property needs: for the message-handling entry points of displayrtcm3 and rtcmfilter, every goroutine that writes to the entry point's writer parameter (J1) signals a join object (deferred close / WaitGroup.Done) only after its last write, (J2) is waited for on every path from its go statement to every return of the entry point, (J3) after its input channel has been closed, (J4) does not delegate writing to a further goroutine, (J5) has its own WaitGroup.Add before the go statement (an Add counts only if it is not used up by other goroutines of the same WaitGroup started in between; goroutines that share the writers' WaitGroup without writing need their own Add too); the consumer loop writes each received message synchronously before its next receive and leaves only on the closed channel or a failed write; the pipeline call that produces the messages precedes the close.  Without such a join some schedule loses the tail; with it none can (given C09's fan-out rules, evaluated here too). (R3, continued) once a writer goroutine has been started, and until all of them have been joined, the entry point neither calls a method of the writer nor converts it to another interface."
+	c.Explanation = "Decides the happens-before structure that the property needs: for the message-handling entry points of displayrtcm3 and rtcmfilter, every goroutine that writes to the entry point's writer parameter (J1) signals a join object (deferred close / WaitGroup.Done) only after its last write, (J2) is waited for on every path from its go statement to every return of the entry point, (J3) after its input channel has been closed, (J4) does not delegate writing to a further goroutine, (J5) has its own WaitGroup.Add before the go statement (an Add counts only if it is not used up by other goroutines of the same WaitGroup started in between; goroutines that share the writers' WaitGroup without writing need their own Add too); the consumer loop writes each received message synchronously before its next receive and leaves only on the closed channel or a failed write; the pipeline call that produces the messages precedes the close.  Without such a join some schedule loses the tail; with it none can (given C09's fan-out rules, evaluated here too). (R3, continued) once a writer goroutine has been started, and until all of them have been joined, the entry point neither calls a method of the writer nor converts it to another interface. (R4) the fan-out and completion rules of C09 and the forward-once rule of the reader stage (C13): every byte read is handed to the framer before the reader returns."
 	c.NotDecided = "that the writer's Write is itself synchronous (os.Stdout, bytes.Buffer are; a caller-supplied asynchronous writer is outside the property); scheduler and memory-model semantics."
 	P := c.P
 	for _, app := range []string{"apps/displayrtcm3", "apps/rtcmfilter"} {
@@ -459,6 +459,14 @@ func checkC11(c *Ctx) {
 	if pl := resolvePipeline(c, "C11-R4"); pl != nil {
 		ruleFanout(c, pl, "C11-R4")
 		ruleCompletion(c, pl, "C11-R4")
+		// "every message derived from the input": the reader stage hands every byte it has read to
+		// the framer before it returns (bytes delivered together with the end-of-file result are the
+		// tail of the output)
+		if read, nVal, errVal := handleRead(pl.handle); read != nil && nVal != nil && errVal != nil {
+			ruleForwardOnce(c, pl, "C11-R4", read, nVal, errVal)
+		} else {
+			c.Fail("C11-R4", "Handle:read", pl.handle.Pos(), "unresolved", "the read call of Handle was not found")
+		}
 	}
 	c.MinInstances("C11-R1", 2)
 	c.MinInstances("C11-R2", 8)
